@@ -48,3 +48,24 @@ pub fn getb(v: &Value, k: &str) -> bool {
 pub fn geta<'a>(v: &'a Value, k: &str) -> &'a Vec<Value> {
     v.get(k).and_then(|x| x.as_array()).unwrap_or_else(|| panic!("missing array field {k} in {v}"))
 }
+
+/// the input a driver is feeding to the library right now: a watchdog reports it if the call never returns
+pub mod watch {
+    use std::sync::Mutex;
+    use std::time::Instant;
+    pub static SLOT: Mutex<Option<(Instant, String)>> = Mutex::new(None);
+    pub fn enter(desc: String) {
+        if let Ok(mut s) = SLOT.lock() {
+            *s = Some((Instant::now(), desc));
+        }
+    }
+    pub fn leave() {
+        if let Ok(mut s) = SLOT.lock() {
+            *s = None;
+        }
+    }
+    /// Some(description) when the call in flight is older than `limit` seconds
+    pub fn stuck(limit: u64) -> Option<String> {
+        SLOT.lock().ok().and_then(|s| s.as_ref().and_then(|(t, d)| if t.elapsed().as_secs() > limit { Some(d.clone()) } else { None }))
+    }
+}
